@@ -519,7 +519,12 @@ func (s *Server) sendStreamingResults(c *streamClient) {
 
 		// s.processSubscription will send a sync marker, handle it separately.
 		if _, ok := item.(syncMarker); ok {
-			if err = c.stream.Send(subscribeSync); err != nil {
+			// A blocked send of the sync marker is subject to the timeout like
+			// any other send.
+			t.Reset(s.o.timeout)
+			err = c.stream.Send(subscribeSync)
+			t.Stop()
+			if err != nil {
 				c.errC <- err
 				return
 			}
